@@ -741,6 +741,11 @@ pub mod verif_c29 {
         pub fn clone_without_increment(&self) -> Self {
             VerifGuard(self.0.clone_without_increment())
         }
+
+        /// `TopicDropGuard::try_clone`: a counting reference, unless no references are left.
+        pub fn try_clone_counting(&self) -> Option<Self> {
+            self.0.try_clone().map(VerifGuard)
+        }
     }
 }
 
